@@ -8,6 +8,7 @@ import (
 	"fmt"
 	"io"
 	"net/http"
+	"net/url"
 	"strconv"
 	"strings"
 
@@ -211,5 +212,165 @@ func opForms(base registry.Reference, tag, dg string) {
 		for _, op := range opKinds {
 			opCase(base, op, run.Rand.Bool(), f.in, f.want)
 		}
+	}
+}
+
+// ---------- operations that build their URL from the base repository and a descriptor ----------
+
+var descOpKinds = []string{"dmfetch", "dmdelete", "dbfetch", "dbdelete", "dreferrers", "dmount", "dbpush", "dtags"}
+
+// cleanForURL: the request URL is observed through net/http (URL.String()), which re-encodes some
+// bytes of a path; descriptor digests that are not valid digests are used only when made of
+// characters URL.String() leaves alone
+func cleanForURL(s string) bool {
+	for i := 0; i < len(s); i++ {
+		c := s[i]
+		if !(isWord(c) || c == ':' || c == '+' || c == '.' || c == '-') {
+			return false
+		}
+	}
+	return s != ""
+}
+
+func runDescOp(base registry.Reference, op string, plain bool, d, a1 string, n int, wrapper bool) []*http.Request {
+	t := &recTransport{}
+	repo := &remote.Repository{Reference: base, PlainHTTP: plain, Client: &http.Client{Transport: t}}
+	repo.SetReferrersCapability(true)
+	repo.TagListPageSize, repo.ReferrerListPageSize = n, n
+	ctx := context.Background()
+	mdesc := ocispec.Descriptor{MediaType: ocispec.MediaTypeImageManifest, Digest: digest.Digest(d), Size: int64(len(opManifest))}
+	bdesc := ocispec.Descriptor{MediaType: "application/octet-stream", Digest: digest.Digest(d), Size: int64(len(opManifest))}
+	switch op {
+	case "dmfetch":
+		var rc io.ReadCloser
+		var err error
+		if wrapper {
+			rc, err = repo.Fetch(ctx, mdesc)
+		} else {
+			rc, err = repo.Manifests().Fetch(ctx, mdesc)
+		}
+		if err == nil {
+			rc.Close()
+		}
+	case "dmdelete":
+		if wrapper {
+			repo.Delete(ctx, mdesc)
+		} else {
+			repo.Manifests().Delete(ctx, mdesc)
+		}
+	case "dbfetch":
+		var rc io.ReadCloser
+		var err error
+		if wrapper {
+			rc, err = repo.Fetch(ctx, bdesc)
+		} else {
+			rc, err = repo.Blobs().Fetch(ctx, bdesc)
+		}
+		if err == nil {
+			rc.Close()
+		}
+	case "dbdelete":
+		if wrapper {
+			repo.Delete(ctx, bdesc)
+		} else {
+			repo.Blobs().Delete(ctx, bdesc)
+		}
+	case "dreferrers":
+		repo.Referrers(ctx, mdesc, a1, func([]ocispec.Descriptor) error { return nil })
+	case "dmount":
+		repo.Mount(ctx, bdesc, a1, nil)
+	case "dbpush":
+		if wrapper {
+			repo.Push(ctx, bdesc, bytes.NewReader(opManifest))
+		} else {
+			repo.Blobs().Push(ctx, bdesc, bytes.NewReader(opManifest))
+		}
+	case "dtags":
+		repo.Tags(ctx, a1, func([]string) error { return nil })
+	default:
+		panic("descop " + op)
+	}
+	return t.reqs
+}
+
+// descOpCase: d = descriptor digest, a1 = artifactType filter / source repository / last tag,
+// n = page size (<= 0: not set).  Oracle (independent of the model): every request goes to the
+// base repository's slot for the operation, and its query decodes (url.ParseQuery) to exactly the
+// documented parameters.
+func descOpCase(base registry.Reference, op string, plain bool, d, a1 string, n int) {
+	id := run.NewID()
+	wrapper := run.Rand.Bool()
+	if forcedVariant >= 0 {
+		wrapper = forcedVariant&4 != 0
+	}
+	reqs := runDescOp(base, op, plain, d, a1, n, wrapper)
+	var sb strings.Builder
+	sb.WriteString("REQS")
+	for _, q := range reqs {
+		sb.WriteString(" " + common.Hex(q.Method) + ":" + common.Hex(q.URL.String()))
+	}
+	p := "0"
+	if plain {
+		p = "1"
+	}
+	num := ""
+	if n > 0 {
+		num = strconv.Itoa(n)
+	}
+	run.Case(id, fmt.Sprintf("D %s %s %s %s %s %s %s", op, p, common.Hex(base.Registry), common.Hex(base.Repository), common.Hex(d), common.Hex(a1), common.Hex(num)), sb.String())
+	run.Count("descop_" + op)
+	if len(reqs) > 0 {
+		run.Nontrivial("D:" + op + p + base.String() + "|" + d + "|" + a1 + "|" + num)
+	}
+	rep := map[string]any{"op": "D", "kind": op, "plain": plain, "registry": base.Registry, "repository": base.Repository, "reference": d, "input": a1, "n": strconv.Itoa(n)}
+	if !okDigest(d) {
+		run.Count("descop_invalid_digest_unjudged")
+		return // a descriptor whose digest is not a digest: caller inconsistency, compared with the model only
+	}
+	method := map[string]string{"dmfetch": "GET", "dmdelete": "DELETE", "dbfetch": "GET", "dbdelete": "DELETE", "dreferrers": "GET", "dmount": "POST", "dbpush": "POST", "dtags": "GET"}[op]
+	tail := map[string]string{"dmfetch": "manifests/" + d, "dmdelete": "manifests/" + d, "dbfetch": "blobs/" + d, "dbdelete": "blobs/" + d,
+		"dreferrers": "referrers/" + d, "dmount": "blobs/uploads/", "dbpush": "blobs/uploads/", "dtags": "tags/list"}[op]
+	want := url.Values{}
+	switch op {
+	case "dreferrers":
+		if a1 != "" {
+			want.Set("artifactType", a1)
+		}
+		if n > 0 {
+			want.Set("n", strconv.Itoa(n))
+		}
+	case "dmount":
+		if !okRepository(a1) {
+			run.Count("descop_mount_from_invalid_unjudged")
+			return
+		}
+		want.Set("mount", d)
+		want.Set("from", a1)
+	case "dtags":
+		if a1 != "" {
+			want.Set("last", a1)
+		}
+		if n > 0 {
+			want.Set("n", strconv.Itoa(n))
+		}
+	}
+	run.Count("descop_judged")
+	if len(reqs) != 1 {
+		run.OracleFail(id, "descop-requests", fmt.Sprintf("%s(%q,%q,%d) on %v sent %d requests, want 1", op, d, a1, n, base, len(reqs)), rep)
+		return
+	}
+	q := reqs[0]
+	got, qerr := url.ParseQuery(q.URL.RawQuery)
+	okq := qerr == nil && len(got) == len(want)
+	for k, v := range want {
+		okq = okq && len(got[k]) == 1 && got[k][0] == v[0]
+	}
+	wantScheme := "https"
+	if plain {
+		wantScheme = "http"
+	}
+	if q.Method != method || q.URL.Scheme != wantScheme || q.URL.Host != base.Host() || q.URL.User != nil || q.URL.Fragment != "" ||
+		q.URL.EscapedPath() != "/v2/"+base.Repository+"/"+tail || !okq {
+		run.OracleFail(id, "descop-url", fmt.Sprintf("%s(%q,%q,%d) on %v sent %s %s; want %s %s://%s/v2/%s/%s with query exactly %v", op, d, a1, n, base, q.Method, q.URL, method, wantScheme, base.Host(), base.Repository, tail, want), rep)
 	}
 }
